@@ -17,10 +17,12 @@ def wake_stores(mod, fn):
                 out.append(s)
     return out
 
-def check_wake_loops(mod, rep, rid):
+def check_wake_loops(mod, rep, rid, only_files=None):
     """Every waker (store waiting=0 to *another* thread's record, i.e. inside a loop over a list) is followed on all paths within
     the loop body by a semaphore V, and the loop unlinks the element it wakes unconditionally (so the loop runs until the list is empty)."""
     for fn in mod.defined.values():
+        if only_files is not None and not any((fn.file or '').endswith(x) for x in only_files):
+            continue
         ws = wake_stores(mod, fn)
         if not ws:
             continue
